@@ -92,7 +92,7 @@ class ModuleInfo(object):
         with open(path, "rb") as fh:
             data = fh.read()
         self.sha256 = hashlib.sha256(data).hexdigest()
-        self.text = data.decode("utf-8")
+        self.text = data.decode("utf-8").replace("\r\n", "\n")   # the repository uses CRLF line endings
         for (mod, old, new) in (edits or []):
             if mod == short:
                 if self.text.count(old) != 1:
